@@ -29,6 +29,11 @@ CHECKS = {
   text="History + executable cache model: generated templates (page, defs with arguments and cache_key, nested def, named and anonymous blocks, cached in any combination, buffered/filter flags, cache_* arguments at template/page/section level) run histories of render / invalidate_body / invalidate_def / invalidate_closure / invalidate(key) / set/get / cache_enabled toggles; every section prints an execution counter supplied through the context, so output and counters together show replay vs re-execution; a recording CacheImpl registered with mako.cache logs every backend call and its keyword arguments (precedence, int timeout, context on request). Backends: recording, Beaker memory/file, dogpile; several templates share a backend, including URIs that differ only in punctuation.",
   note="Trusted: the 60-line cache model in checks/c17.py; expiry is not exercised (real-time backends). One open known finding (Cache.id collision for URIs differing only in non-word characters), recognised by a second model universe that reproduces the observation exactly.",
   technique="recorded render/invalidate histories checked against an executable cache model + recording backend"),
+ "C18": dict(
+  category="exploration", design_ref="DESIGN.md §2 C18",
+  text="Differential runtime oracle against CPython's codecs plus by-construction expected output: generated templates (text, expression literals, <% %> string literals, def defaults, tag attribute values) with characters sampled from the repertoire of each of 11 codecs are encoded and declared in 7 ways (comment, input_encoding, both, conflicting, none, BOM with conflicting comment, declared ASCII with high bytes) and compiled from bytes, a file, into a module directory, reloaded from the module file in the same and in a fresh process; Template.source is compared with the decoded text; render() is compared with render_unicode().encode(output_encoding, encoding_errors) for 6 output settings including matching UnicodeEncodeError under strict.",
+  note="Trusted: CPython codecs. The whole codec x declaration x path x output grid is enumerated; template bodies per cell are sampled.",
+  technique="differential runtime oracle against CPython codecs over the codec x declaration x path x output grid"),
  "C19": dict(
   category="exploration", design_ref="DESIGN.md §2 C19",
   text="CPython is the runtime oracle: random expression trees over the whole ast expression grammar (depth<=5) are re-emitted by Mako's ExpressionGenerator and compared by ast.dump and by value, and a sample runs end-to-end as def/page defaults and filter-call arguments; generated statement blocks (functions with every parameter kind, lambdas, comprehensions, try/with/loops/imports) run under strict_undefined with exactly the names CPython's symtable says they need and must equal native exec, and must raise NameError naming a removed name; 18 tricky block shapes are re-margined at 0..12 spaces/tabs in <% %> and <%! %> and compared with native exec.",
